@@ -170,6 +170,30 @@ pub mod verif {
         }
     }
 
+    /// ONE `ShwapMultihasher` kept over a store for a whole history of calls (as bitswap keeps it)
+    pub struct VerifMultihasher<S: Store + 'static>(ShwapMultihasher<S>);
+
+    impl<S: Store + 'static> VerifMultihasher<S> {
+        pub fn new(store: Arc<S>) -> Self {
+            VerifMultihasher(ShwapMultihasher::new(store))
+        }
+
+        /// `self.hash(code, input)`: the multihash bytes or the error class plus its message
+        pub async fn hash(
+            &self,
+            multihash_code: u64,
+            input: &[u8],
+        ) -> std::result::Result<Vec<u8>, (&'static str, String)> {
+            match self.0.hash(multihash_code, input).await {
+                Ok(mh) => Ok(mh.to_bytes()),
+                Err(MultihasherError::UnknownMultihashCode) => Err(("UnknownMultihashCode", String::new())),
+                Err(MultihasherError::InvalidMultihashSize) => Err(("InvalidMultihashSize", String::new())),
+                Err(MultihasherError::Custom(s)) => Err(("Custom", s)),
+                Err(MultihasherError::CustomFatal(s)) => Err(("CustomFatal", s)),
+            }
+        }
+    }
+
     /// `get_block_container(expected_cid, block)`
     pub fn block_container(expected_cid: &Cid, block: &[u8]) -> std::result::Result<Vec<u8>, String> {
         get_block_container(expected_cid, block).map_err(|e| e.to_string())
